@@ -36,7 +36,7 @@ fn squash(s: &str) -> String {
 /// Stable label of a program for signatures: the corpus name, or for generated programs the
 /// sorted set of its operator classes.
 pub fn prog_label(p: &ProgSpec) -> String {
-    if p.is_corpus() {
+    if p.is_corpus() || p.name.starts_with("k_") {
         p.name.clone()
     } else {
         let mut c = p.traits.classes.clone();
@@ -49,7 +49,7 @@ pub fn prog_label(p: &ProgSpec) -> String {
 /// Label of one output for signatures: corpus programs by name, generated programs by the
 /// operator labels on the output's dependency slice.
 pub fn out_label(p: &ProgSpec, o: &OutSpec) -> String {
-    if p.is_corpus() {
+    if p.is_corpus() || p.name.starts_with("k_") {
         format!("{}/{}", p.name, o.name)
     } else {
         format!("gen[{}]", o.slice.join(","))
